@@ -314,6 +314,9 @@ func (s *apiStore) read(name string) (r string, err error) {
 
 func expressible(b *hBeh, api string) bool {
 	for _, st := range b.Steps {
+		if st.Op.Op == "unset" || st.Op.Op == "unsetf" {
+			continue // carries no value
+		}
 		if api == "vcl" && st.Op.VK == "ns" {
 			return false
 		}
